@@ -1,0 +1,12 @@
+//go:build verif
+
+// Contracts for package registry (comment-only; compiled only with -tags verif).
+package registry
+
+//@ type Registry
+//@   nonnil entries
+
+//@ func (*registry.Registry).Processor {C04,C20}
+//@   reads
+//@ func (*registry.Registry).Register {C04,C20}
+//@   modifies r.entries
